@@ -6,7 +6,7 @@ from protocol import from_real, KEYS
 import h2bars_util as U
 
 ID = "C10"
-LEAN_MODULE = ["SCoda.Props.C10", "SCoda.Props.C11b", "SCoda.Props.ElemTie", "SCoda.Props.Gaps", "SCoda.Props.StaticLink"]
+LEAN_MODULE = ["SCoda.Props.C10", "SCoda.Props.C11b", "SCoda.Props.ElemTie", "SCoda.Props.Gaps", "SCoda.Props.StaticLink", "SCoda.Props.C10Ch", "SCoda.Props.ElemTieCh"]
 LEVEL = "proof"
 CLAUSES = [
     ("an accepted bar lasts exactly numerator*4/denominator quarter notes (its capacity in ticks, the int-typed value of the Python expression)",
@@ -28,10 +28,24 @@ CLAUSES = [
      "every run (Gen/ElemFns.lean, on top of the translated Sequence wrapper) and proved equal to the model `mkBar` / `Bar.copy` / `barsToSeq` the theorems "
      "above are about: same BarException or same bar, for every wrapper state of the sequence, every sequence and every signature with 0 <= numerator, "
      "0 < denominator (the domain on which Python's int(n*PPQN/(d/4)) is the model's integer capacity); the constructed bar's sequence has its relative view "
-     "fresh and its absolute view stale",
+     "fresh and its absolute view stale (Bar.copy = the model's `Bar.copy` for a bar whose default_channel is 0 or None; every channel: next clause)",
      ["SCoda.ElemTie.barInit_eq", "SCoda.ElemTie.barInit_toBar", "SCoda.ElemTie.barInit_flags", "SCoda.ElemTie.barCopy_toBar",
       "SCoda.ElemTie.barCopy_constructed", "SCoda.ElemTie.barTranspose_eq", "SCoda.ElemTie.barIsEmpty_eq", "SCoda.ElemTie.barsToSequence_eq",
       "SCoda.ElemTie.barsToSequence_constructed", "SCoda.ElemTie.pyIntOf_barCap", "SCoda.ElemTie.translated_covered"]),
+    ("EVERY default_channel (audit round 3 R7; finding D37 and its repair): Bar.__init__ and Bar.copy as re-translated from bar.py are the "
+     "channel-parametrised model `mkBarCh` / `Bar.copyCh` (Model/BarCh.lean: `mkBar` line by line, the leading time-signature event on channel "
+     "default_channel, None -> 0; `mkBar` is the instance 0, and `mkBarCh` is `mkBar` with that one event moved to the channel, so duration, leading "
+     "signature, events and every rejection of the clauses above hold for every channel); the constructed bar remembers default_channel; "
+     "WHENEVER Bar.copy() SUCCEEDS THE COPY CARRIES THE BAR'S default_channel AND ITS LEADING TIME-SIGNATURE EVENT IS ON THAT CHANNEL "
+     "(barCopy_default_channel — the statement whose failure was D37), without any hypothesis: every bar, wrapper state, signature; and copying a bar built by "
+     "the constructor (0 <= numerator, 0 < denominator, 0 <= PPQN, any default_channel) always succeeds, leaves the bar unchanged and yields an "
+     "equal bar: same signature, key, default_channel, timed events (the leading signature on the same channel among them) and duration. "
+     "Negative control: the UNREPAIRED copy (channel 0 whatever the bar was built with) of the recorded D37 bar (channel 3) has different events "
+     "(kernel-checked)",
+     ["SCoda.ElemTie.barInit_eq_ch", "SCoda.ElemTie.barInit_toBar_ch", "SCoda.ElemTie.barInit_shape", "SCoda.ElemTie.barCopy_toBar_ch",
+      "SCoda.ElemTie.barCopy_constructed_ch", "SCoda.ElemTie.barCopy_default_channel", "SCoda.ElemTie.barCopy_of_constructed",
+      "SCoda.ElemTieCh.barCopy_equal", "SCoda.C10Ch.bar_ch_eq", "SCoda.C10Ch.bar_duration_ch", "SCoda.C10Ch.bar_leading_sig_ch",
+      "SCoda.C10Ch.bar_events_ch", "SCoda.C10Ch.bar_copy_ch", "SCoda.C10Ch.unrepaired_copy_differs"]),
     ('the link through which the translated sequences_split_bars reads the signature and key queues (AbsoluteSequence.get_message_times_of_type, a hand-written definition in Model/StaticLib.lean) is what the TRANSLATED method computes on a freshly built list, read back through the heap (audit round 3 R1: an edit of that method now breaks this obligation)',
      ["SCoda.StaticLink.timesOfType_link", "SCoda.AbsTie2.getMessageTimesOfType_eq", "SCoda.AbsTie2.timesOfType_init"]),
 ]
@@ -39,8 +53,9 @@ RULE = ("relative sequences shorter than / equal to / one tick longer than / lon
         "channels, with zero, one matching, one conflicting or two signature events, x 12 signatures x keys x default_channel (not passed, 0, the "
         "track's channel, 5, 15) x wrapper states built from plain data (rel, abs, both, stale views, insort, churned); "
         "non-trivial = sequence has notes or a signature event")
-ASSUMPTIONS = ["model: SCoda.mkBar (Model/Bar.lean), tied by translation (ElemTie) for default_channel = 0 and sampled by correspondence; a default_channel other "
-               "than 0 is judged by the oracle only",
+ASSUMPTIONS = ["model: SCoda.mkBar (Model/Bar.lean), tied by translation (ElemTie) and sampled by correspondence for default_channel = 0; for any other "
+               "default_channel the model is SCoda.mkBarCh (Model/BarCh.lean), tied by translation for every channel (ElemTie.barInit_eq_ch, "
+               "barCopy_toBar_ch), NOT sampled by correspondence (no driver op): on those inputs the real objects are judged by the oracle",
                "'an equal bar' is judged on plain data: same signature / key attributes, same timed events (every message field) and duration; the library's `==` "
                "is not the expectation (clause copy-eq only reports it when it contradicts equal data)",
                "a repeated identical signature is removed by the constructor's normalise() before the count, so it is accepted (DESIGN C10)"]
